@@ -6,7 +6,7 @@ using namespace vf;
 int main(int argc, char** argv) {
 	if (argc < 5) { fprintf(stderr, "usage: syntool <VER> <focus> <seed> <out.nif> [maxCount [minCount [emptyRefOneIn]]] [--normal-form]\n"); return 2; }
 	const VerInfo* v = nullptr;
-	for (int i = 0; i < NVERS; i++) if (std::string(VERS[i].n) == argv[1]) v = &VERS[i];
+	v = findVer(argv[1]);
 	if (!v) { fprintf(stderr, "unknown version label %s\n", argv[1]); return 2; }
 	SynthOpts so;
 	bool nf = false;
